@@ -220,3 +220,25 @@ Theorem C05_module_names_and_targets_eq_cpython :
   rel R n (lookup n (two_phase mp is_init X body)) (lookup n (pns pm)).
 Proof. exact module_names_eq_cpython. Qed.
 Print Assumptions C05_module_names_and_targets_eq_cpython.
+
+(* F9: every body has one statement per line, yet the real traversal and the schedule both disagree with CPython: the submodule
+   special case refuses an overwrite and keeps the older line number, so an earlier wildcard import processed later wins. *)
+Theorem C05_special_case_lineno_refuted :
+  exists top ms order,
+    is_ok (py_import ms order []) = true /\
+    (exists l, griffe_load top ms = Done l /\ l_special l <> [] /\ l_pending l = [] /\ l_dropped l = [] /\
+               unexpanded_unreached l = [] /\ l_xpending l = []) /\
+    (forall m, In m ms -> increasing (ms_body m)) /\
+    agreeb top (loaded_table (griffe_load top ms)) (py_table (py_import ms order [])) = false /\
+    agreeb top (griffe_sched top ms order) (py_table (py_import ms order [])) = false.
+Proof. exact special_case_lineno_refuted. Qed.
+Print Assumptions C05_special_case_lineno_refuted.
+
+Theorem C05_exports_pending_read_refuted :        (* F10 *)
+  exists top ms order,
+    is_ok (py_import ms order []) = true /\
+    (exists l, griffe_load top ms = Done l /\ l_xpending l <> [] /\ l_dropped l = [] /\ unexpanded_unreached l = []) /\
+    agreeb top (loaded_table (griffe_load top ms)) (py_table (py_import ms order [])) = false /\
+    agreeb top (griffe_sched top ms order) (py_table (py_import ms order [])) = true.
+Proof. exact exports_pending_read_refuted. Qed.
+Print Assumptions C05_exports_pending_read_refuted.
